@@ -175,10 +175,49 @@ def handle : Handler := fun m j =>
       match v with
       | .leaf l =>
         match IrVerif.PyTensor.castLeaf d l with
-        | .ok x => return obj [("ok", toJson x)]
-        | .err e => return obj [("raised", Json.str e)]
-        | .unmodelled => return obj [("unmodelled", toJson true)]
+        | .ok x => return obj [("ok", toJson x), ("real64", toJson l.isReal64)]
+        | .err e => return obj [("raised", Json.str e), ("real64", toJson l.isReal64)]
+        | .unmodelled => return obj [("unmodelled", toJson true), ("real64", toJson l.isReal64)]
       | _ => throw "pyt.cast: not a scalar"
+  | "pyt.castmany" => some do
+      -- many Python floats (binary64 bit patterns) / ints into one dtype: the exhaustive tables
+      let d ← getDType j "d"
+      let fs : Array Nat ← fromJson? (← j.getObjVal? "f")
+      let is : Array Int ← fromJson? (← j.getObjVal? "i")
+      let one (l : IrVerif.PyTensor.Leaf) : Json :=
+        match IrVerif.PyTensor.castLeaf d l with
+        | .ok x => toJson x
+        | .err e => Json.str e
+        | .unmodelled => Json.null
+      return obj [("f", Json.arr (fs.map (fun b => one (.float b)))),
+                  ("i", Json.arr (is.map (fun i => one (.int i))))]
+  | "pyt.ctor" => some do
+      -- Tensor(array, dtype=d): does _check_numpy_representation_type accept the array dtype (by name)
+      let arrs : Array String ← fromJson? (← j.getObjVal? "arrs")
+      return obj [("accepts", Json.arr (arrs.map (fun a =>
+        Json.arr ((IrVerif.TensorRepr.DType.all.map (fun d =>
+          Json.arr #[toJson d.code, toJson (IrVerif.PyTensor.ctorAccepts a d),
+                     toJson ((IrVerif.TensorRepr.DType.npItemsize a).getD 0 == IrVerif.TensorRepr.npItemBytes d)])).toArray))))]
+  | "pyt.dec8" => some do
+      -- the value specification of the narrow float types: every pattern decoded
+      let d ← getDType j "d"
+      let k ← match d with
+        | .float8e4m3fn => pure IrVerif.PyTensor.F8.e4m3fn | .float8e4m3fnuz => pure .e4m3fnuz
+        | .float8e5m2 => pure .e5m2 | .float8e5m2fnuz => pure .e5m2fnuz
+        | .float8e8m0 => pure .e8m0 | .float4e2m1 => pure .e2m1
+        | _ => throw "pyt.dec8: not a narrow float type"
+      let one (p : Nat) : Json :=
+        match IrVerif.PyTensor.decF8 k p with
+        | .zero neg => obj [("k", Json.str "zero"), ("neg", toJson neg)]
+        | .fin neg m e => obj [("k", Json.str "fin"), ("neg", toJson neg), ("m", toJson m), ("e", toJson e)]
+        | .inf neg => obj [("k", Json.str "inf"), ("neg", toJson neg)]
+        | .nan neg => obj [("k", Json.str "nan"), ("neg", toJson neg)]
+      return obj [("bits", toJson k.bits),
+                  ("vals", Json.arr ((List.range (2 ^ k.bits)).map one).toArray),
+                  ("roundtrip", Json.arr ((List.range (2 ^ k.bits)).map
+                      (fun p => toJson (IrVerif.PyTensor.encF8 k (IrVerif.PyTensor.decF8 k p)))).toArray),
+                  ("canon", Json.arr ((List.range (2 ^ k.bits)).map
+                      (fun p => toJson (IrVerif.PyTensor.canonF8 k p))).toArray)]
   | "extlife.run" => some do
       let e ← extOfJson (← j.getObjVal? "ext")
       let fs ← fsOfJson j
